@@ -72,7 +72,7 @@ def encode_int(name, value):
     lo, hi = int_range(name)
     if value < lo or value > hi:
         raise DataError("out of range")
-    if value < 0:
+    if signed and value < 0:
         value = value + (1 << (8 * n))
     return le_uint(value, n)
 
